@@ -11,8 +11,9 @@ import (
 //verif:case C17 quick VerifGroupTrigger 1 1 @fires=2 @noreplay=1
 //verif:case C17 thorough VerifGroupTrigger 3 0
 //verif:case C17 thorough VerifGroupTrigger 2 1 @fires=2 @noreplay=1
-// VerifGroupStop args: what races with StopAndWait (0 Do registration, 1 Trigger registration + call, 2 parent context cancelled instead of Stop)
-//verif:case C17 quick VerifGroupStop 0..2
+// VerifGroupStop args: what races with StopAndWait (0 Do registration, 1 Trigger registration + call,
+//   2 parent context cancelled first, 3 Stop() called first - a function is still finishing in both)
+//verif:case C17 quick VerifGroupStop 0..3
 // VerifGroupPeriodic args: runs to wait for
 //verif:case C17 quick VerifGroupPeriodic 1..2 @fires=3 @noreplay=1
 //verif:case C17 thorough VerifGroupPeriodic 3 @fires=4 @noreplay=1
@@ -102,18 +103,19 @@ func VerifGroupStop(which int) {
 			t := g.Trigger(l.f)
 			t()
 		}()
-	case 2:
+	case 2, 3:
 		g.Do(func(ctx context.Context) {
 			<-ctx.Done()
-			l.f(ctx)
+			l.f(ctx) // still finishing after the group has been told to stop
 		})
 	}
-	if which == 2 {
+	switch which {
+	case 2:
 		cancelParent()
-		g.wg.Wait() // the group winds down on its own when the parent context ends
-	} else {
-		g.StopAndWait()
+	case 3:
+		g.Stop()
 	}
+	g.StopAndWait()
 	vAtomic(func() { l.stopped = true })
 	vAssert(l.running == 0, "stopandwait/nothing-running-when-it-returns")
 	vQuiesce()
